@@ -187,8 +187,11 @@ def run(tier: str) -> Run:
     for name in ('scattering_angles_with_gravity', 'scattering_angle_in_yz_plane'):
         kfi = repo.func('conversion.beamline', name)
         worst, n_runs, n_products = worst_f32(repo, kfi, fixed_same=[('incident_beam', 'scattered_beam')], corners=tier == 'quick')
-        if n_runs == 0 or n_products == 0:
-            raise AnalysisError(f'{kfi.fq}: no single-precision intermediate was bounded ({n_runs} unit assignments)')
+        if n_runs == 0:
+            raise AnalysisError(f'{kfi.fq}: parameters without a physical range')
+        if n_products == 0:
+            r7.ok(name, {'unit_assignments': n_runs, 'power_products_bounded': 0, 'note': 'no float32 intermediate for a float32 wavelength'}, nontrivial=False)
+            continue
         r7.check(worst is None, name, loc(kfi), {'unit_assignments': n_runs, 'power_products_bounded': n_products, 'worst': worst}, key=f'{name}:f32-range')
     return run
 
